@@ -199,6 +199,11 @@ def step (s : St) (ws : List String) : St × String :=
     ({ s with prep := { p with cache := { p.cache with items := [] } } }, "ev=" ++ showEvN p.cache.items.reverse)
   | ["ast", "prepareStatement"] => (s, astExpect)
   | "trace" :: evs => (s, judge evs)
+  | ["cachelen", cp, mx] =>
+    -- C14_lru_refines_map: len ≤ cap for cap > 0 (0 = unbounded)
+    match (cp.splitOn "=").getD 1 "" |>.toInt?, (mx.splitOn "=").getD 1 "" |>.toNat? with
+    | some c, some m => (s, if c ≤ 0 ∨ (m : Int) ≤ c then "accept" else s!"reject:cache-holds-{m}-of-{c}")
+    | _, _ => (s, "bad-op")
   | _ => (s, "bad-op")
 
 end Driver.C14
